@@ -31,6 +31,14 @@ def atom_str(k):
     if isinstance(k, tuple):
         if k and k[0] == 'sym':
             return str(k[1])
+        if k and k[0] == 'fatom':
+            return '%s(%s)' % (k[1], k[2])
+        if k and k[0] == 'elem':
+            return '%s[%s]%s' % (atom_str(k[1]), atom_str(k[2]), ('.' + k[3]) if k[3] else '')
+        if k and k[0] == 'seq':
+            return str(k[1])
+        if k and k[0] in ('ic',):
+            return str(k[1])
         return '%s(%s)' % (k[0], ','.join(atom_str(x) for x in k[1:]))
     return str(k)
 
